@@ -95,6 +95,13 @@ class _Linalg:
         return out
 
 
+def _solve(a, b):
+    return np.asarray(_Linalg.inv(a), dtype=object) @ arr(b)
+
+
+_Linalg.solve = staticmethod(_solve)
+
+
 class Backend:
     """Namespace object passed as `xp`."""
 
